@@ -49,11 +49,11 @@ var foreignNames = []string{"", " ", "add", "ADD", "Add ", " Add", "Add\x00", "R
 	"ConstantOfshape", "Constant_", "com.microsoft.Gelu", "ai.onnx.Add", "Add:13", "Conv2D", "QLinearConv", "é", "Ａdd", "Softmax\n"}
 
 type gateCase struct {
-	op   string
-	n    int   // number of inputs supplied
-	pos  int   // position carrying the probed dtype (-1: none)
-	dt   int   // index into gen.All14 (for pos >= 0)
-	nilAt int  // optional position supplied as nil (-1: none)
+	op    string
+	n     int // number of inputs supplied
+	pos   int // position carrying the probed dtype (-1: none)
+	dt    int // index into gen.All14 (for pos >= 0)
+	nilAt int // optional position supplied as nil (-1: none)
 }
 
 // c15Enumerate lists the complete finite space of the property.
@@ -94,9 +94,9 @@ func init() {
 			}
 			return len(c15Space) + c15Registry
 		},
-		Run:   c15Run,
-		Floor: func(tier string) int { return 5000 },
-		Rule: "complete enumeration: 55 operators x input count 0..max+2 (Concat 0..6) x each of the 14 element types at each supplied position (other positions carry an allowed type) x nil at each optional position, through Operator.ValidateInputs of a fresh instance from opset13.GetOperator; arities cross-checked against an independent table typed in from the ONNX spec. Then 400 registry cases: every name resolves, repeated lookups are state-independent (a fresh instance prints identically before and after another instance of the same name was Init-ed with non-default attributes and applied), foreign names yield ErrUnsupportedOperator; and single-node models observed through the operator proxy: a rejected gate is never followed by an apply event. A gate case is non-trivial when it is rejected or pads optional inputs; distinct = distinct (op, count, position, dtype, nil position).",
+		Run:            c15Run,
+		Floor:          func(tier string) int { return 5000 },
+		Rule:           "complete enumeration: 55 operators x input count 0..max+2 (Concat 0..6) x each of the 14 element types at each supplied position (other positions carry an allowed type) x nil at each optional position, through Operator.ValidateInputs of a fresh instance from opset13.GetOperator; arities cross-checked against an independent table typed in from the ONNX spec. Then 400 registry cases: every name resolves, repeated lookups are state-independent (a fresh instance prints identically before and after another instance of the same name was Init-ed with non-default attributes and applied), foreign names yield ErrUnsupportedOperator; and single-node models observed through the operator proxy: a rejected gate is never followed by an apply event. A gate case is non-trivial when it is rejected or pads optional inputs; distinct = distinct (op, count, position, dtype, nil position).",
 		Exhaustive:     func(tier string) bool { return true },
 		RaceInThorough: true,
 		Technique:      "runtime monitoring: exhaustive enumeration of the finite gate space against the operators' declared constraints and an independent ONNX arity table; proxy trace check 'no apply after a failed validate'",
